@@ -58,8 +58,10 @@ def run(ctx: Ctx, tier: str) -> Result:
                 if f.name == "__init__":
                     continue
                 conds = paths.conditions(p, n, f)
-                guarded = any(not pol and "_immutable" in norm(c) for c, pol in conds)
-                raises = [r for r in t.nodes_in(f, ast.Raise) if any(pol and "_immutable" in norm(c) for c, pol in paths.conditions(p, r, f))]
+                def is_flag(c):
+                    return norm(c) in ("self._immutable", "getattr(self, '_immutable', False)", "getattr(self, '_immutable', None)")
+                guarded = any(not pol and is_flag(c) for c, pol in conds)
+                raises = [r for r in t.nodes_in(f, ast.Raise) if any(pol and is_flag(c) for c, pol in paths.conditions(p, r, f))]
                 locked = any(isinstance(a, ast.With) and any("_lock" in norm(i.context_expr) for i in a.items) for a in p.ancestors(n, stop=f.node))
                 if guarded and raises:
                     res.ok("C18.FROZEN", {"method": f.name, "mutation": norm(n)[:50]})
@@ -110,14 +112,16 @@ def run(ctx: Ctx, tier: str) -> Result:
         res.fail(Finding("C18.CAP", si.qname, st_, si.loc(st_), "the container is inspected outside `with self._lock` to decide the eviction: two threads inserting new keys at capacity-1 both "
                          "see `not full` and the container exceeds its capacity without counting a drop"))
     # capacity 0
-    zero = [d for d in drops if any(pol and "max_length == 0" in norm(c) for c, pol in paths.conditions(p, d, si))]
+    def is_zero(c):
+        return norm(c) in ("self.max_length is not None and self.max_length == 0", "self.max_length == 0", "self.max_length is not None and self.max_length <= 0")
+    zero = [d for d in drops if any(pol and is_zero(c) for c, pol in paths.conditions(p, d, si))]
     okz = False
     if len(zero) == 1:
         blk = paths.block_position(p, zero[0])
         sibs = getattr(blk[0], blk[1])
         okz = isinstance(zero[0].op, ast.Add) and norm(zero[0].value) == "1" and any(isinstance(x, ast.Return) for x in sibs[blk[2] + 1:]) \
             and all(not paths.dominates(p, stores[0], zero[0], si) for _ in [0])
-    if okz and any(not pol and "max_length == 0" in norm(c) for c, pol in paths.conditions(p, stores[0], si)):
+    if okz and any(not pol and is_zero(c) for c, pol in paths.conditions(p, stores[0], si)):
         res.ok("C18.CAP", {"capacity 0": "count one drop and return before storing"})
     else:
         res.fail(Finding("C18.CAP", si.qname, "<max_length == 0: dropped += 1; return>", si.loc(), "a container of capacity 0 does not drop (and count) every value"))
@@ -206,6 +210,16 @@ def run(ctx: Ctx, tier: str) -> Result:
     prim = [r for r in rets if isinstance(r.value, ast.Call) and "_clean_attribute_value" in norm(r.value.func)]
     nones = [r for r in rets if isinstance(r.value, ast.Constant) and r.value.value is None]
     mixed = [n for n in t.nodes_in(ca, ast.Compare) if isinstance(n.ops[0], ast.NotEq) and "type" in norm(n)]
+    # every element of a sequence must itself be of a valid primitive type: the rejection returns None
+    inval = [r for r in nones if any(pol and isinstance(c, ast.Compare) and len(c.ops) == 1 and isinstance(c.ops[0], ast.NotIn)
+                                     and norm(c.comparators[0]) == "_VALID_ATTR_VALUE_TYPES"
+                                     and all(x.startswith("type(") and ("<elem>(%s)" % P(ca, 1) in x or "<loop:" in x) for x in ctx.expand.expand(c.left, ca))
+                                     for c, pol in paths.conditions(p, r, ca)) and paths.enclosing_loops(p, r, ca)]
+    if inval:
+        res.ok("C18.CLEAN", {"sequence element of an invalid type rejects the value": ca.loc(inval[0])})
+    else:
+        res.fail(Finding("C18.CLEAN", ca.qname, "<element type not in _VALID_ATTR_VALUE_TYPES -> None>", ca.loc(),
+                         "a sequence holding an element of an invalid type (dict, object, nested list) is no longer rejected: invalid values are stored"))
     if okk and len(tup) == 1 and len(prim) == 1 and len(nones) >= 4 and len(rets) == len(tup) + len(prim) + len(nones) and mixed \
             and any(pol and any("isinstance(%s, _VALID_ATTR_VALUE_TYPES)" % ca.params[1] in norm(c) for c, _ in [(c, pol)]) for c, pol in paths.conditions(p, prim[0], ca)):
         res.ok("C18.CLEAN", {"_clean_attribute": "invalid key -> None; primitive -> cleaned; homogeneous sequence -> tuple; mixed/invalid -> None"})
@@ -213,6 +227,20 @@ def run(ctx: Ctx, tier: str) -> Result:
         res.fail(Finding("C18.CLEAN", ca.qname, "<cleaning rules>", ca.loc(), "attribute cleaning no longer rejects invalid keys / mixed sequences or no longer freezes sequences into tuples"))
 
     # ---------------- MERGE
+    mi = ba.lookup("merge_in")
+    need(mi is not None, "BoundedAttributes.merge_in not found")
+    mst = [n for n in t.nodes_in(mi, ast.Subscript) if isinstance(n.ctx, ast.Store) and norm(n.value) == "self"]
+    okmi = False
+    if len(mst) == 1:
+        lps_ = [l for l in paths.enclosing_loops(p, mst[0], mi) if isinstance(l, ast.For)]
+        st_ = paths.stmt_of(p, mst[0])
+        okmi = len(lps_) == 1 and norm(lps_[0].iter) in ("%s.items()" % mi.params[1], "list(%s.items())" % mi.params[1]) and not paths.conditions(p, mst[0], mi) \
+            and isinstance(lps_[0].target, ast.Tuple) and norm(mst[0].slice) == norm(lps_[0].target.elts[0]) and norm(st_.value) == norm(lps_[0].target.elts[1]) \
+            and not list(t.nodes_in(mi, (ast.Break, ast.Return)))
+    if okmi:
+        res.ok("C18.MERGE", {"merge_in stores every item through __setitem__": True})
+    else:
+        res.fail(Finding("C18.MERGE", mi.qname, mst[0] if mst else "<self[k] = v for every item>", mi.loc(), "merge_in does not store every (key, value) of the other attributes"))
     mg = p.func(RES + ".merge")
     writes = [n for n in t.nodes_in(mg) if (isinstance(n, (ast.Assign, ast.AugAssign)) and any(
         isinstance(x, (ast.Attribute, ast.Subscript)) and norm(x).split(".")[0].split("[")[0] in ("self", mg.params[1]) for x in (n.targets if isinstance(n, ast.Assign) else [n.target])))]
@@ -286,6 +314,26 @@ def run(ctx: Ctx, tier: str) -> Result:
         res.ok("C18.CHAIN", {"service name fallback": norm(fb[0])[:90]})
     else:
         res.fail(Finding("C18.CHAIN", cr.qname, fb[0] if fb else "<service.name fallback>", cr.loc(), "a resource without service.name does not get the unknown_service fallback merged in"))
+    # the environment source is read afresh for every resource: the map the detector fills is created in that call, never kept
+    # between calls (the detector also writes the service-name override into it)
+    det = p.func("deep.api.resource.DeepResourceDetector.detect")
+    rcs = [c for c in t.calls_in(det) if any(k.qname == RES for k in t.resolve_call(c, det).ctor)]
+    need(len(rcs) >= 1, "DeepResourceDetector.detect: Resource construction not found")
+    for c in rcs:
+        a0 = c.args[0] if c.args else None
+        fresh = False
+        if isinstance(a0, ast.Name):
+            bs = [b for k, b in t.local_bindings(det, a0.id)]
+            vals = [b[1] for k, b in t.local_bindings(det, a0.id) if k == "assign"]
+            fresh = len(bs) == len(vals) and bool(vals) and all(
+                (isinstance(v, ast.Dict) and not v.keys) or (isinstance(v, ast.Call) and norm(v.func) in ("dict", "OrderedDict") and not v.args) for v in vals)
+        elif isinstance(a0, ast.Dict) or a0 is None:
+            fresh = True
+        if fresh:
+            res.ok("C18.CHAIN", {"environment attributes collected into a map created by this call": norm(a0) if a0 is not None else "{}"})
+        else:
+            res.fail(Finding("C18.CHAIN", det.qname, c, det.loc(c), "the map of environment attributes is not created afresh in each detection (`%s` comes from state kept "
+                             "between calls): an override written into it (service name) or an earlier environment leaks into later resources" % (norm(a0)[:40] if a0 is not None else "")))
     rm = p.modules["deep.api.resource"]
     dflt = rm.consts.get("_DEFAULT_RESOURCE")
     keys = []
